@@ -496,7 +496,7 @@ def st_enum_spec(draw, counter):
 @st.composite
 def st_literal_spec(draw, counter, strict_only_lookalikes: bool):
     if True:
-        kind = draw(st.sampled_from(["ints", "strs", "mixed", "bools", "bytes", "enum", "many", "lookalike"]))
+        kind = draw(st.sampled_from(["ints", "strs", "mixed", "bools", "bytes", "enum", "many", "lookalike", "lookalike_many"]))
         if kind == "ints":
             vals = draw(st.lists(st.sampled_from([0, 1, 2, 5, -1, 100]), min_size=1, max_size=3, unique=True))
         elif kind == "strs":
@@ -524,6 +524,11 @@ def st_literal_spec(draw, counter, strict_only_lookalikes: bool):
             vals = vals + extra
         elif kind == "many":
             vals = [0, 1, 2, 3, 4, 5, "a", "b"][: draw(st.integers(5, 8))]
+        elif kind == "lookalike_many":
+            # more than 4 members: the loader switches from a tuple to a set of allowed values
+            vals = draw(st.sampled_from([[1, True, "a", "b", "c"], [False, 0, "a", "b", "c"], [0, 1, False, True, "x"],
+                                         [True, 1, 2, 3, 4, 5], [0, 2, 3, 4, False]])) if strict_only_lookalikes else \
+                draw(st.sampled_from([[1, 2, 3, 4, 5], [True, "a", "b", "c", "d"], [0, "a", "b", "c", "d", "e"]]))
         elif kind == "lookalike":
             vals = draw(st.sampled_from([[0, False], [1, True], [0, 1, False, True], [False, 1], [0, True]])) \
                 if strict_only_lookalikes else draw(st.sampled_from([[0, 1], [False, True], [0, True], [1, False]]))
@@ -728,6 +733,8 @@ def _st_default(draw, tspec, kind):
         return ["nr"]
     if base[0] in ("list", "dict", "set") and kind in ("dataclass", "attrs"):
         return ["f", base[0]]
+    if base[0] == "optional" and strip(base[1])[0] in ("list", "dict", "set") and kind in ("dataclass", "attrs"):
+        return ["f", strip(base[1])[0]]   # Optional[list] = field(default_factory=list): None is a falsy non-default value
     if contains(tspec, *_MUTABLE_TAGS) or any(s[0] == "abc" and s[1].startswith("Mutable") for s in walk(tspec)):
         return None  # only immutable canonical values are used as plain defaults
     return ["v", draw(st_value(tspec))]
